@@ -1282,6 +1282,7 @@ fn generate_plain(prop: &str, rng: &mut Rng, tier: &Tier) -> Vec<Case> {
             let mut c = gen_copy(rng, tier);
             c.extend(gen_cache(rng, tier));
             c.extend(crate::gen2::gen_source_cache(rng, tier));
+            c.extend(crate::gen2::gen_unit_wrappers(rng, tier));
             c
         }
         p => crate::gen2::generate(p, rng, tier),
